@@ -316,6 +316,117 @@ fn xhash_clone_panic(rng: &mut Rng) -> Result<(), String> {
     Ok(())
 }
 
+thread_local! {
+    static DROPS: std::cell::RefCell<Vec<u32>> = std::cell::RefCell::new(Vec::new());
+}
+/// Element with drop glue that counts its destructor runs per identity.
+#[derive(PartialEq, Eq, Hash, Debug)]
+struct D(usize);
+impl Drop for D {
+    fn drop(&mut self) {
+        DROPS.with(|d| {
+            let mut d = d.borrow_mut();
+            if self.0 < d.len() {
+                d[self.0] += 1;
+            }
+        });
+    }
+}
+
+/// Owning iterators over maps whose key and value types differ in drop glue (droppable key + plain value and
+/// vice versa), consumed through `next` for a prefix and `fold` / `for_each` / `count` / `collect` for the rest:
+/// every object is destroyed exactly once, whoever ends up owning it.
+fn owning_fold_mixed(rng: &mut Rng) -> Result<(), String> {
+    let n = 1 + rng.below(40) as usize;
+    let pre = rng.below(n as u64 + 1) as usize;
+    let reset = |n: usize| DROPS.with(|d| *d.borrow_mut() = vec![0; n]);
+    let verdict = |what: &str, n: usize| -> Result<(), String> {
+        DROPS.with(|d| {
+            let d = d.borrow();
+            match d.iter().take(n).position(|&c| c != 1) {
+                Some(i) => Err(format!("{}: object {} was destroyed {} times", what, i, d[i])),
+                None => Ok(()),
+            }
+        })
+    };
+    for mode in 0..6 {
+        reset(n);
+        match mode {
+            0 | 1 => {
+                // droppable keys, plain values
+                let m: HashMap<D, u64> = (0..n).map(|i| (D(i), i as u64)).collect();
+                let mut it = m.into_keys();
+                let mut held: Vec<D> = Vec::new();
+                for _ in 0..pre {
+                    held.extend(it.next());
+                }
+                if mode == 0 {
+                    held = it.fold(held, |mut v, k| {
+                        v.push(k);
+                        v
+                    });
+                } else if it.count() + held.len() != n {
+                    return Err("into_keys().count() disagrees with len".into());
+                }
+                drop(held);
+                verdict(if mode == 0 { "into_keys + fold (droppable keys, plain values)" } else { "into_keys + count" }, n)?;
+            }
+            2 | 3 => {
+                // plain keys, droppable values
+                let m: HashMap<u64, D> = (0..n).map(|i| (i as u64, D(i))).collect();
+                let mut it = m.into_values();
+                let mut held: Vec<D> = Vec::new();
+                for _ in 0..pre {
+                    held.extend(it.next());
+                }
+                if mode == 2 {
+                    it.for_each(|v| held.push(v));
+                } else {
+                    let s: HashSet<D> = it.collect();
+                    if s.len() + held.len() != n {
+                        return Err("into_values().collect() lost elements".into());
+                    }
+                }
+                drop(held);
+                verdict("into_values + for_each / collect (plain keys, droppable values)", n)?;
+            }
+            4 => {
+                let mut m: HashMap<D, u64> = (0..n).map(|i| (D(i), 0)).collect();
+                let mut held: Vec<D> = Vec::new();
+                {
+                    let mut d = m.drain();
+                    for _ in 0..pre {
+                        held.extend(d.next().map(|p| p.0));
+                    }
+                    d.for_each(|(k, _)| held.push(k));
+                }
+                if !m.is_empty() {
+                    return Err("drain + for_each left elements behind".into());
+                }
+                drop(held);
+                drop(m);
+                verdict("drain + for_each (droppable keys, plain values)", n)?;
+            }
+            _ => {
+                let st: HashSet<D> = (0..n).map(D).collect();
+                let mut it = st.into_iter();
+                let mut held: Vec<D> = Vec::new();
+                for _ in 0..pre {
+                    held.extend(it.next());
+                }
+                let dst: HashSet<D> = it.collect();
+                if dst.len() + held.len() != n {
+                    return Err("set into_iter().collect() lost elements".into());
+                }
+                drop(dst);
+                drop(held);
+                verdict("set into_iter + collect", n)?;
+            }
+        }
+    }
+    Ok(())
+}
+
 fn zst_one(rng: &mut Rng) -> Result<(), String> {
     let cap = *rng.pick(&[0usize, 1, 3, 4, 7, 8, 14, 15, 28, 29, 56, 100, 500, 1000]);
     let seed = rng.next();
@@ -601,7 +712,7 @@ pub fn run(seed: u64, count: usize, prefix: &str) {
     let mut ops = std::io::BufWriter::new(std::fs::File::create(format!("{}.ops", prefix)).unwrap());
     let mut real = std::io::BufWriter::new(std::fs::File::create(format!("{}.real", prefix)).unwrap());
     for i in 0..count {
-        for (kind, tag) in [("xhash-sets", "XHASH"), ("xhash-maps", "XHASH"), ("zst", "ZST"), ("misc", "MISC"), ("xhash-clone-panic", "XHASH")] {
+        for (kind, tag) in [("xhash-sets", "XHASH"), ("xhash-maps", "XHASH"), ("zst", "ZST"), ("misc", "MISC"), ("xhash-clone-panic", "XHASH"), ("owning-fold", "MISC")] {
             let mut rng = Rng::new(crate::tape::mix3(seed, i as u64, kind.len() as u64));
             let id = format!("scn extras-{}-{}-{}", kind, seed, i);
             writeln!(ops, "{}", id).unwrap();
@@ -610,6 +721,7 @@ pub fn run(seed: u64, count: usize, prefix: &str) {
                 "xhash-maps" => xhash_maps(&mut rng),
                 "misc" => misc(&mut rng),
                 "xhash-clone-panic" => xhash_clone_panic(&mut rng),
+                "owning-fold" => owning_fold_mixed(&mut rng),
                 _ => zst_one(&mut rng),
             }));
             let verdict = match r {
